@@ -4,6 +4,7 @@ import (
 	"encoding/binary"
 	"encoding/json"
 	"fmt"
+	seccomp "github.com/elastic/go-seccomp-bpf"
 
 	"golang.org/x/net/bpf"
 	"pgregory.net/rapid"
@@ -23,6 +24,8 @@ type polCase struct {
 	Policy spec.Policy  `json:"policy"`
 	Seed   uint64       `json:"seed"`
 	Extra  []spec.Event `json:"extra,omitempty"`
+	// Prev: the same policy value was compiled for this architecture before it is compiled for its own
+	Prev string `json:"prev_arch,omitempty"`
 }
 
 type compiled struct {
@@ -38,7 +41,23 @@ func compilePolicy(p *spec.Policy) (c *compiled, err error, panicked any) {
 			panicked = x
 		}
 	}()
+	return compilePolicyAfter(p, "")
+}
+
+// compilePolicyAfter: if prev names an architecture, the policy value is first compiled for that one (result
+// ignored) and then for its own.
+func compilePolicyAfter(p *spec.Policy, prev string) (c *compiled, err error, panicked any) {
+	defer func() {
+		if x := recover(); x != nil {
+			panicked = x
+		}
+	}()
 	sp := p.ToSeccomp()
+	if prev != "" && spec.ArchInfo(prev) != nil {
+		seccomp.VerifSetArch(sp, spec.ArchInfo(prev))
+		sp.Assemble()
+		seccomp.VerifSetArch(sp, spec.ArchInfo(p.Arch))
+	}
 	insts, err := sp.Assemble()
 	if err != nil {
 		return nil, err, nil
